@@ -2,6 +2,7 @@ import PqlModel.Props.C07
 import PqlModel.Props.C07Full
 import PqlModel.Props.C07Layout
 import PqlModel.Props.C07Keywords
+import PqlModel.Props.C07Defaults
 #print axioms Pql.C07.C07_precedence_table
 #print axioms Pql.C07.C07_spec_prec_eq_model
 #print axioms Pql.C07.C07_join_kinds
@@ -42,3 +43,15 @@ import PqlModel.Props.C07Keywords
 #print axioms Pql.Layout.C07_synonyms_demo
 #print axioms Pql.C07K.C07_keyword_table
 #print axioms Pql.C07K.C07_operator_table
+#print axioms Pql.Dispatch.C07_sortTerm_tables
+#print axioms Pql.Dispatch.C07_sortTerm_nulls_follow_direction
+#print axioms Pql.Dispatch.C07_sortTerm_flags
+#print axioms Pql.Dispatch.C07_sortTerm_flags_needs_expr
+#print axioms Pql.Dispatch.C07_sortTerm_flag_table
+#print axioms Pql.Dispatch.C07_rowCount_table
+#print axioms Pql.Dispatch.C07_rowCount_check
+#print axioms Pql.Dispatch.C07_join_tables
+#print axioms Pql.Dispatch.C07_join_no_kind
+#print axioms Pql.Dispatch.C07_join_kind
+#print axioms Pql.Dispatch.C07_sortTerm_demo
+#print axioms Pql.Dispatch.C07_join_no_kind_needs_hyp
